@@ -63,6 +63,8 @@ inductive Op
  | closeD (did : Nat)
 deriving Repr, DecidableEq
 
+def addNew (l : List Nat) (x : Nat) : List Nat := if l.contains x then l else l ++ [x]
+
 def insertTok (x : Nat × String) : List (Nat × String) → List (Nat × String)
  | [] => [x]
  | y :: ys => if x.1 ≤ y.1 then x :: y :: ys else y :: insertTok x ys
@@ -80,53 +82,65 @@ def bindAt (s : State) (addr : Nat) : Option Bind := s.bound.find? (fun b => b.a
 def lookingAt (s : State) (lid : Nat) : List Park :=
   s.parked.filter (fun p => s.bound.any (fun b => b.addr = p.addr ∧ b.lid = lid))
 
+def useCall (s : State) (call : Nat) : State := { s with used := s.used ++ [call] }
+
+def listenOk (s : State) (lid addr self peer : Nat) : State :=
+  { s with bound := s.bound ++ [Bind.mk addr lid self peer],
+           activeL := addNew s.activeL lid,
+           parked := s.parked.filter (fun p => ¬ (p.addr = addr ∧ ¬ (p.self = peer ∧ p.peer = self))) }
+
+def acceptPush (s : State) (lid call : Nat) : State := { s with accepters := s.accepters ++ [(lid, call)] }
+
+def acceptPair (s : State) (call : Nat) (p : Park) : State :=
+  { s with parked := s.parked.filter (fun q => q.call ≠ p.call), conns := s.conns ++ [(call, p.call)] }
+
+def dialPair (s : State) (ac call : Nat) : State :=
+  { s with accepters := s.accepters.filter (fun a => a.2 ≠ ac), conns := s.conns ++ [(ac, call)] }
+
+def dialPark (s : State) (p : Park) : State := { s with parked := s.parked ++ [p] }
+
+def goneAt (s : State) (lid : Nat) (p : Park) : Bool := (s.bound.filter (fun b => b.lid = lid)).any (fun b => b.addr = p.addr)
+
+def closeLState (s : State) (lid : Nat) : State :=
+  { s with bound := s.bound.filter (fun b => b.lid ≠ lid),
+           closedL := addNew s.closedL lid,
+           accepters := s.accepters.filter (fun a => a.1 ≠ lid),
+           parked := s.parked.filter (fun p => ¬ goneAt s lid p) }
+
+def closeDState (s : State) (did : Nat) : State :=
+  { s with closedD := addNew s.closedD did, parked := s.parked.filter (fun p => p.did ≠ did) }
+
 def step (s : State) : Op → List (State × List String)
  | .listen lid addr self peer =>
    if s.closedL.contains lid then [(s, render (some "closed") [])] else
    if (s.bound.any (fun b => b.addr = addr)) then [(s, render (some "addrinuse") [])] else
    -- woken dials at this address find the new listener: wrong protocol is told so, the others keep waiting
-   let bad := s.parked.filter (fun p => p.addr = addr ∧ ¬ (p.self = peer ∧ p.peer = self))
-   [({ s with bound := s.bound ++ [{ addr := addr, lid := lid, self := self, peer := peer }],
-             activeL := if s.activeL.contains lid then s.activeL else s.activeL ++ [lid],
-             parked := s.parked.filter (fun p => ¬ (p.addr = addr ∧ ¬ (p.self = peer ∧ p.peer = self))) },
-     render (some "ok") (bad.map (fun p => (p.call, "badproto"))))]
+   [(listenOk s lid addr self peer,
+     render (some "ok") ((s.parked.filter (fun p => p.addr = addr ∧ ¬ (p.self = peer ∧ p.peer = self))).map
+       (fun p => (p.call, "badproto"))))]
  | .accept lid call =>
    if s.used.contains call then [] else
-   let s := { s with used := s.used ++ [call] }
+   let s := useCall s call
    if !s.activeL.contains lid || s.closedL.contains lid then [(s, render none [(call, "closed")])] else
-   match lookingAt s lid with
-   | [] => [({ s with accepters := s.accepters ++ [(lid, call)] }, render none [])]
-   | ps => ps.map (fun p =>
-       ({ s with parked := s.parked.filter (fun q => q.call ≠ p.call), conns := s.conns ++ [(call, p.call)] },
-        render none [(call, "conn"), (p.call, "conn")]))
+   if (lookingAt s lid).isEmpty then [(acceptPush s lid call, render none [])] else
+   (lookingAt s lid).map (fun p => (acceptPair s call p, render none [(call, "conn"), (p.call, "conn")]))
  | .dial did call addr self peer =>
    if s.used.contains call then [] else
-   let s := { s with used := s.used ++ [call] }
+   let s := useCall s call
    if s.closedD.contains did then [(s, render none [(call, "closed")])] else
    match bindAt s addr with
    | none => [(s, render none [(call, "refused")])]
    | some b =>
      if ¬ (self = b.peer ∧ peer = b.self) then [(s, render none [(call, "badproto")])] else
      match lastAcc s.accepters b.lid with
-     | some ac =>
-       [({ s with accepters := s.accepters.filter (fun a => a.2 ≠ ac), conns := s.conns ++ [(ac, call)] },
-         render none [(ac, "conn"), (call, "conn")])]
-     | none => [({ s with parked := s.parked ++ [{ call := call, did := did, addr := addr, self := self, peer := peer }] },
-                 render none [])]
+     | some ac => [(dialPair s ac call, render none [(ac, "conn"), (call, "conn")])]
+     | none => [(dialPark s (Park.mk call did addr self peer), render none [])]
  | .closeL lid =>
-   let gone := s.bound.filter (fun b => b.lid = lid)
-   let woken := s.parked.filter (fun p => gone.any (fun b => b.addr = p.addr))
-   let accs := s.accepters.filter (fun a => a.1 = lid)
-   [({ s with bound := s.bound.filter (fun b => b.lid ≠ lid),
-             closedL := if s.closedL.contains lid then s.closedL else s.closedL ++ [lid],
-             accepters := s.accepters.filter (fun a => a.1 ≠ lid),
-             parked := s.parked.filter (fun p => ¬ gone.any (fun b => b.addr = p.addr)) },
-     render (some "ok") (accs.map (fun a => (a.2, "closed")) ++ woken.map (fun p => (p.call, "refused"))))]
+   [(closeLState s lid,
+     render (some "ok") ((s.accepters.filter (fun a => a.1 = lid)).map (fun a => (a.2, "closed")) ++
+       (s.parked.filter (fun p => goneAt s lid p)).map (fun p => (p.call, "refused"))))]
  | .closeD did =>
-   let woken := s.parked.filter (fun p => p.did = did)
-   [({ s with closedD := if s.closedD.contains did then s.closedD else s.closedD ++ [did],
-             parked := s.parked.filter (fun p => p.did ≠ did) },
-     render (some "ok") (woken.map (fun p => (p.call, "closed"))))]
+   [(closeDState s did, render (some "ok") ((s.parked.filter (fun p => p.did = did)).map (fun p => (p.call, "closed"))))]
 
 inductive Reach : State → Prop
  | init : Reach init
@@ -144,8 +158,498 @@ structure Inv (s : State) : Prop where
   accLive : ∀ a ∈ s.accepters, a.1 ∈ s.activeL ∧ a.1 ∉ s.closedL
   parkedOK : ∀ p ∈ s.parked, p.did ∉ s.closedD ∧
       ∃ b ∈ s.bound, b.addr = p.addr ∧ p.self = b.peer ∧ p.peer = b.self ∧ ∀ a ∈ s.accepters, a.1 ≠ b.lid
-  callsNodup : (allCalls s).Nodup
-  callsUsed : ∀ c ∈ allCalls s, c ∈ s.used
+  accNodup : (accCalls s).Nodup
+  parkNodup : (parkCalls s).Nodup
+  connNodup : (connCalls s).Nodup
+  accPark : ∀ c ∈ accCalls s, c ∉ parkCalls s
+  accConn : ∀ c ∈ accCalls s, c ∉ connCalls s
+  parkConn : ∀ c ∈ parkCalls s, c ∉ connCalls s
+  callsUsed : ∀ c, c ∈ accCalls s ∨ c ∈ parkCalls s ∨ c ∈ connCalls s → c ∈ s.used
+
+theorem mem_addNew (l : List Nat) (y x : Nat) : x ∈ addNew l y ↔ x ∈ l ∨ x = y := by
+  unfold addNew
+  split
+  · rename_i h
+    have hy : y ∈ l := by simpa using h
+    constructor
+    · exact Or.inl
+    · rintro (h | rfl)
+      · exact h
+      · exact hy
+  · simp
+
+theorem bindAt_some {s : State} {addr : Nat} {b : Bind} (h : bindAt s addr = some b) : b ∈ s.bound ∧ b.addr = addr := by
+  unfold bindAt at h
+  exact ⟨List.mem_of_find?_eq_some h, by simpa using List.find?_some h⟩
+
+theorem lastAcc_some {l : List (Nat × Nat)} {lid ac : Nat} (h : lastAcc l lid = some ac) : (lid, ac) ∈ l := by
+  unfold lastAcc at h
+  cases hg : (l.filter (fun a => a.1 = lid)).getLast? with
+  | none => simp [hg] at h
+  | some a =>
+    simp [hg] at h
+    have hm : a ∈ l.filter (fun a => a.1 = lid) := List.mem_of_getLast? hg
+    simp at hm
+    obtain ⟨hm1, hm2⟩ := hm
+    have : a = (lid, ac) := by cases a; simp_all
+    exact this ▸ hm1
+
+theorem lastAcc_none {l : List (Nat × Nat)} {lid : Nat} (h : lastAcc l lid = none) : ∀ a ∈ l, a.1 ≠ lid := by
+  unfold lastAcc at h
+  intro a ha he
+  have : l.filter (fun a => a.1 = lid) = [] := by simpa using h
+  have hm : a ∈ l.filter (fun a => a.1 = lid) := by simp [ha, he]
+  rw [this] at hm
+  cases hm
+
+theorem init_inv : Inv init := by
+  constructor <;> simp [init, accCalls, parkCalls, connCalls]
+
+theorem useCall_inv (s : State) (call : Nat) (h : Inv s) : Inv (useCall s call) :=
+  { boundNodup := h.boundNodup, boundLive := h.boundLive, accLive := h.accLive, parkedOK := h.parkedOK,
+    accNodup := h.accNodup, parkNodup := h.parkNodup, connNodup := h.connNodup, accPark := h.accPark,
+    accConn := h.accConn, parkConn := h.parkConn,
+    callsUsed := fun c hc => by
+      have := h.callsUsed c hc
+      simp only [useCall, List.mem_append]
+      exact Or.inl this }
+
+theorem fresh_not_held (s : State) (call : Nat) (h : Inv s) (hf : call ∉ s.used) :
+    call ∉ accCalls s ∧ call ∉ parkCalls s ∧ call ∉ connCalls s :=
+  ⟨fun hx => hf (h.callsUsed _ (Or.inl hx)), fun hx => hf (h.callsUsed _ (Or.inr (Or.inl hx))),
+   fun hx => hf (h.callsUsed _ (Or.inr (Or.inr hx)))⟩
+
+theorem listenOk_inv (s : State) (lid addr self peer : Nat) (h : Inv s)
+    (hc : lid ∉ s.closedL) (hb : ∀ b ∈ s.bound, b.addr ≠ addr) : Inv (listenOk s lid addr self peer) := by
+  have hsub : (listenOk s lid addr self peer).parked.Sublist s.parked := List.filter_sublist
+  constructor
+  · simp only [listenOk, List.map_append, List.map_cons, List.map_nil]
+    rw [List.nodup_append]
+    refine ⟨h.boundNodup, by simp, ?_⟩
+    intro a ha b hb2
+    simp at hb2
+    subst hb2
+    simp only [List.mem_map] at ha
+    obtain ⟨x, hx, rfl⟩ := ha
+    exact hb x hx
+  · intro b hb2
+    simp only [listenOk, List.mem_append, List.mem_singleton] at hb2
+    simp only [listenOk, mem_addNew]
+    rcases hb2 with hb2 | rfl
+    · exact ⟨Or.inl (h.boundLive b hb2).1, (h.boundLive b hb2).2⟩
+    · exact ⟨Or.inr rfl, hc⟩
+  · intro a ha
+    simp only [listenOk, mem_addNew]
+    exact ⟨Or.inl (h.accLive a ha).1, (h.accLive a ha).2⟩
+  · intro p hp
+    have hp' : p ∈ s.parked := hsub.subset hp
+    obtain ⟨h1, b, hb1, hb2⟩ := h.parkedOK p hp'
+    refine ⟨h1, b, ?_, hb2⟩
+    simp only [listenOk, List.mem_append]
+    exact Or.inl hb1
+  · exact h.accNodup
+  · exact (hsub.map _).nodup h.parkNodup
+  · exact h.connNodup
+  · intro c hc1 hc2
+    exact h.accPark c hc1 ((hsub.map _).subset hc2)
+  · exact h.accConn
+  · intro c hc1
+    exact h.parkConn c ((hsub.map _).subset hc1)
+  · intro c hc1
+    apply h.callsUsed c
+    rcases hc1 with hc1 | hc1 | hc1
+    · exact Or.inl hc1
+    · exact Or.inr (Or.inl ((hsub.map _).subset hc1))
+    · exact Or.inr (Or.inr hc1)
+
+theorem mem_lookingAt {s : State} {lid : Nat} {p : Park} :
+    p ∈ lookingAt s lid ↔ p ∈ s.parked ∧ ∃ b ∈ s.bound, b.addr = p.addr ∧ b.lid = lid := by
+  simp [lookingAt]
+
+theorem acceptPush_inv (s : State) (lid call : Nat) (h : Inv s) (hu : call ∈ s.used)
+    (hn : call ∉ accCalls s ∧ call ∉ parkCalls s ∧ call ∉ connCalls s)
+    (ha : lid ∈ s.activeL) (hc : lid ∉ s.closedL) (hl : lookingAt s lid = []) : Inv (acceptPush s lid call) := by
+  obtain ⟨f1, f2, f3⟩ := hn
+  constructor
+  · exact h.boundNodup
+  · exact h.boundLive
+  · intro a ha2
+    simp only [acceptPush, List.mem_append, List.mem_singleton] at ha2
+    rcases ha2 with ha2 | rfl
+    · exact h.accLive a ha2
+    · exact ⟨ha, hc⟩
+  · intro p hp
+    obtain ⟨h1, b, hb1, hb2, hb3, hb4, hb5⟩ := h.parkedOK p hp
+    refine ⟨h1, b, hb1, hb2, hb3, hb4, ?_⟩
+    intro a ha2
+    simp only [acceptPush, List.mem_append, List.mem_singleton] at ha2
+    rcases ha2 with ha2 | rfl
+    · exact hb5 a ha2
+    · intro he
+      have : p ∈ lookingAt s lid := mem_lookingAt.2 ⟨hp, b, hb1, hb2, he.symm⟩
+      rw [hl] at this
+      cases this
+  · simp only [accCalls, acceptPush, List.map_append, List.map_cons, List.map_nil]
+    rw [List.nodup_append]
+    refine ⟨h.accNodup, by simp, ?_⟩
+    intro a ha2 b hb
+    simp at hb
+    subst hb
+    intro he
+    subst he
+    exact f1 ha2
+  · exact h.parkNodup
+  · exact h.connNodup
+  · intro c hc1
+    simp only [accCalls, acceptPush, List.map_append, List.map_cons, List.map_nil, List.mem_append, List.mem_singleton] at hc1
+    rcases hc1 with hc1 | rfl
+    · exact h.accPark c hc1
+    · exact f2
+  · intro c hc1
+    simp only [accCalls, acceptPush, List.map_append, List.map_cons, List.map_nil, List.mem_append, List.mem_singleton] at hc1
+    rcases hc1 with hc1 | rfl
+    · exact h.accConn c hc1
+    · exact f3
+  · exact h.parkConn
+  · intro c hc1
+    simp only [accCalls, acceptPush, List.map_append, List.map_cons, List.map_nil, List.mem_append, List.mem_singleton] at hc1
+    simp only [acceptPush]
+    rcases hc1 with (hc1 | rfl) | hc1 | hc1
+    · exact h.callsUsed c (Or.inl hc1)
+    · exact hu
+    · exact h.callsUsed c (Or.inr (Or.inl hc1))
+    · exact h.callsUsed c (Or.inr (Or.inr hc1))
+
+theorem mem_connCalls_snoc (l : List (Nat × Nat)) (a b x : Nat) :
+    x ∈ (l ++ [(a, b)]).flatMap (fun c => [c.1, c.2]) ↔ x ∈ l.flatMap (fun c => [c.1, c.2]) ∨ x = a ∨ x = b := by
+  simp
+
+theorem connCalls_snoc_nodup (l : List (Nat × Nat)) (a b : Nat) (h : (l.flatMap (fun c => [c.1, c.2])).Nodup)
+    (ha : a ∉ l.flatMap (fun c => [c.1, c.2])) (hb : b ∉ l.flatMap (fun c => [c.1, c.2])) (hab : a ≠ b) :
+    ((l ++ [(a, b)]).flatMap (fun c => [c.1, c.2])).Nodup := by
+  rw [List.flatMap_append, List.nodup_append]
+  refine ⟨h, by simp [hab], ?_⟩
+  intro x hx y hy
+  simp at hy
+  rcases hy with rfl | rfl
+  · intro he; subst he; exact ha hx
+  · intro he; subst he; exact hb hx
+
+theorem acceptPair_inv (s : State) (call : Nat) (p : Park) (h : Inv s) (hu : call ∈ s.used)
+    (hn : call ∉ accCalls s ∧ call ∉ parkCalls s ∧ call ∉ connCalls s) (hp : p ∈ s.parked) :
+    Inv (acceptPair s call p) := by
+  obtain ⟨f1, f2, f3⟩ := hn
+  have hsub : (acceptPair s call p).parked.Sublist s.parked := List.filter_sublist
+  have hpc : p.call ∈ parkCalls s := List.mem_map.2 ⟨p, hp, rfl⟩
+  have hne : call ≠ p.call := fun he => f2 (he ▸ hpc)
+  have hgone : p.call ∉ parkCalls (acceptPair s call p) := by
+    simp only [parkCalls, acceptPair, List.mem_map, List.mem_filter]
+    rintro ⟨q, ⟨_, hq2⟩, hq3⟩
+    simp at hq2
+    exact hq2 hq3
+  constructor
+  · exact h.boundNodup
+  · exact h.boundLive
+  · exact h.accLive
+  · intro q hq
+    exact h.parkedOK q (hsub.subset hq)
+  · exact h.accNodup
+  · exact (hsub.map _).nodup h.parkNodup
+  · exact connCalls_snoc_nodup s.conns call p.call h.connNodup f3 (h.parkConn _ hpc) hne
+  · intro c hc1 hc2
+    exact h.accPark c hc1 ((hsub.map _).subset hc2)
+  · intro c hc1 hc2
+    have := (mem_connCalls_snoc s.conns call p.call c).1 hc2
+    rcases this with h1 | rfl | rfl
+    · exact h.accConn c hc1 h1
+    · exact f1 hc1
+    · exact h.accPark _ hc1 hpc
+  · intro c hc1 hc2
+    have hc1' : c ∈ parkCalls s := (hsub.map _).subset hc1
+    have := (mem_connCalls_snoc s.conns call p.call c).1 hc2
+    rcases this with h1 | rfl | rfl
+    · exact h.parkConn c hc1' h1
+    · exact f2 hc1'
+    · exact hgone hc1
+  · intro c hc1
+    show c ∈ s.used
+    rcases hc1 with hc1 | hc1 | hc1
+    · exact h.callsUsed c (Or.inl hc1)
+    · exact h.callsUsed c (Or.inr (Or.inl ((hsub.map _).subset hc1)))
+    · have := (mem_connCalls_snoc s.conns call p.call c).1 hc1
+      rcases this with h1 | rfl | rfl
+      · exact h.callsUsed c (Or.inr (Or.inr h1))
+      · exact hu
+      · exact h.callsUsed _ (Or.inr (Or.inl hpc))
+
+theorem dialPair_inv (s : State) (lid ac call : Nat) (h : Inv s) (hu : call ∈ s.used)
+    (hn : call ∉ accCalls s ∧ call ∉ parkCalls s ∧ call ∉ connCalls s) (hac : (lid, ac) ∈ s.accepters) :
+    Inv (dialPair s ac call) := by
+  obtain ⟨f1, f2, f3⟩ := hn
+  have hsub : (dialPair s ac call).accepters.Sublist s.accepters := List.filter_sublist
+  have hacc : ac ∈ accCalls s := List.mem_map.2 ⟨(lid, ac), hac, rfl⟩
+  have hne : ac ≠ call := fun he => f1 (he ▸ hacc)
+  have hgone : ac ∉ accCalls (dialPair s ac call) := by
+    simp only [accCalls, dialPair, List.mem_map, List.mem_filter]
+    rintro ⟨q, ⟨_, hq2⟩, hq3⟩
+    simp at hq2
+    exact hq2 hq3
+  constructor
+  · exact h.boundNodup
+  · exact h.boundLive
+  · intro a ha
+    exact h.accLive a (hsub.subset ha)
+  · intro q hq
+    obtain ⟨h1, b, hb1, hb2, hb3, hb4, hb5⟩ := h.parkedOK q hq
+    exact ⟨h1, b, hb1, hb2, hb3, hb4, fun a ha => hb5 a (hsub.subset ha)⟩
+  · exact (hsub.map _).nodup h.accNodup
+  · exact h.parkNodup
+  · exact connCalls_snoc_nodup s.conns ac call h.connNodup (h.accConn _ hacc) f3 hne
+  · intro c hc1 hc2
+    exact h.accPark c ((hsub.map _).subset hc1) hc2
+  · intro c hc1 hc2
+    have hc1' : c ∈ accCalls s := (hsub.map _).subset hc1
+    have := (mem_connCalls_snoc s.conns ac call c).1 hc2
+    rcases this with h1 | rfl | rfl
+    · exact h.accConn c hc1' h1
+    · exact hgone hc1
+    · exact f1 hc1'
+  · intro c hc1 hc2
+    have := (mem_connCalls_snoc s.conns ac call c).1 hc2
+    rcases this with h1 | rfl | rfl
+    · exact h.parkConn c hc1 h1
+    · exact h.accPark _ hacc hc1
+    · exact f2 hc1
+  · intro c hc1
+    show c ∈ s.used
+    rcases hc1 with hc1 | hc1 | hc1
+    · exact h.callsUsed c (Or.inl ((hsub.map _).subset hc1))
+    · exact h.callsUsed c (Or.inr (Or.inl hc1))
+    · have := (mem_connCalls_snoc s.conns ac call c).1 hc1
+      rcases this with h1 | rfl | rfl
+      · exact h.callsUsed c (Or.inr (Or.inr h1))
+      · exact h.callsUsed _ (Or.inl hacc)
+      · exact hu
+
+theorem dialPark_inv (s : State) (p : Park) (b : Bind) (h : Inv s) (hu : p.call ∈ s.used)
+    (hn : p.call ∉ accCalls s ∧ p.call ∉ parkCalls s ∧ p.call ∉ connCalls s)
+    (hd : p.did ∉ s.closedD) (hb : b ∈ s.bound) (hba : b.addr = p.addr) (hs : p.self = b.peer) (hp : p.peer = b.self)
+    (hno : ∀ a ∈ s.accepters, a.1 ≠ b.lid) : Inv (dialPark s p) := by
+  obtain ⟨f1, f2, f3⟩ := hn
+  constructor
+  · exact h.boundNodup
+  · exact h.boundLive
+  · exact h.accLive
+  · intro q hq
+    simp only [dialPark, List.mem_append, List.mem_singleton] at hq
+    rcases hq with hq | rfl
+    · exact h.parkedOK q hq
+    · exact ⟨hd, b, hb, hba, hs, hp, hno⟩
+  · exact h.accNodup
+  · simp only [parkCalls, dialPark, List.map_append, List.map_cons, List.map_nil]
+    rw [List.nodup_append]
+    refine ⟨h.parkNodup, by simp, ?_⟩
+    intro a ha2 c hc
+    simp at hc
+    subst hc
+    intro he
+    subst he
+    exact f2 ha2
+  · exact h.connNodup
+  · intro c hc1 hc2
+    simp only [parkCalls, dialPark, List.map_append, List.map_cons, List.map_nil, List.mem_append, List.mem_singleton] at hc2
+    rcases hc2 with hc2 | rfl
+    · exact h.accPark c hc1 hc2
+    · exact f1 hc1
+  · exact h.accConn
+  · intro c hc1
+    simp only [parkCalls, dialPark, List.map_append, List.map_cons, List.map_nil, List.mem_append, List.mem_singleton] at hc1
+    rcases hc1 with hc1 | rfl
+    · exact h.parkConn c hc1
+    · exact f3
+  · intro c hc1
+    show c ∈ s.used
+    simp only [parkCalls, dialPark, List.map_append, List.map_cons, List.map_nil, List.mem_append, List.mem_singleton] at hc1
+    rcases hc1 with hc1 | (hc1 | rfl) | hc1
+    · exact h.callsUsed c (Or.inl hc1)
+    · exact h.callsUsed c (Or.inr (Or.inl hc1))
+    · exact hu
+    · exact h.callsUsed c (Or.inr (Or.inr hc1))
+
+theorem closeL_inv (s : State) (lid : Nat) (h : Inv s) : Inv (closeLState s lid) := by
+  have hsb : (closeLState s lid).bound.Sublist s.bound := List.filter_sublist
+  have hsa : (closeLState s lid).accepters.Sublist s.accepters := List.filter_sublist
+  have hsp : (closeLState s lid).parked.Sublist s.parked := List.filter_sublist
+  constructor
+  · exact (hsb.map _).nodup h.boundNodup
+  · intro b hb
+    simp only [closeLState, List.mem_filter] at hb
+    obtain ⟨hb1, hb2⟩ := hb
+    have hne : b.lid ≠ lid := by simpa using hb2
+    simp only [closeLState, mem_addNew]
+    exact ⟨(h.boundLive b hb1).1, fun hx => hx.elim (h.boundLive b hb1).2 hne⟩
+  · intro a ha
+    simp only [closeLState, List.mem_filter] at ha
+    obtain ⟨ha1, ha2⟩ := ha
+    have hne : a.1 ≠ lid := by simpa using ha2
+    simp only [closeLState, mem_addNew]
+    exact ⟨(h.accLive a ha1).1, fun hx => hx.elim (h.accLive a ha1).2 hne⟩
+  · intro p hp
+    simp only [closeLState, List.mem_filter] at hp
+    obtain ⟨hp1, hp2⟩ := hp
+    obtain ⟨h1, b, hb1, hb2, hb3, hb4, hb5⟩ := h.parkedOK p hp1
+    refine ⟨h1, b, ?_, hb2, hb3, hb4, fun a ha => hb5 a (hsa.subset ha)⟩
+    simp only [closeLState, List.mem_filter]
+    refine ⟨hb1, ?_⟩
+    have hne : b.lid ≠ lid := by
+      intro he
+      have : goneAt s lid p = true := by
+        simp only [goneAt, List.any_eq_true, List.mem_filter]
+        exact ⟨b, ⟨hb1, by simpa using he⟩, by simpa using hb2⟩
+      simp [this] at hp2
+    simpa using hne
+  · exact (hsa.map _).nodup h.accNodup
+  · exact (hsp.map _).nodup h.parkNodup
+  · exact h.connNodup
+  · intro c hc1 hc2
+    exact h.accPark c ((hsa.map _).subset hc1) ((hsp.map _).subset hc2)
+  · intro c hc1
+    exact h.accConn c ((hsa.map _).subset hc1)
+  · intro c hc1
+    exact h.parkConn c ((hsp.map _).subset hc1)
+  · intro c hc1
+    apply h.callsUsed c
+    rcases hc1 with hc1 | hc1 | hc1
+    · exact Or.inl ((hsa.map _).subset hc1)
+    · exact Or.inr (Or.inl ((hsp.map _).subset hc1))
+    · exact Or.inr (Or.inr hc1)
+
+theorem closeD_inv (s : State) (did : Nat) (h : Inv s) : Inv (closeDState s did) := by
+  have hsp : (closeDState s did).parked.Sublist s.parked := List.filter_sublist
+  constructor
+  · exact h.boundNodup
+  · exact h.boundLive
+  · exact h.accLive
+  · intro p hp
+    simp only [closeDState, List.mem_filter] at hp
+    obtain ⟨hp1, hp2⟩ := hp
+    have hne : p.did ≠ did := by simpa using hp2
+    obtain ⟨h1, rest⟩ := h.parkedOK p hp1
+    refine ⟨?_, rest⟩
+    simp only [closeDState, mem_addNew]
+    exact fun hx => hx.elim h1 hne
+  · exact h.accNodup
+  · exact (hsp.map _).nodup h.parkNodup
+  · exact h.connNodup
+  · intro c hc1 hc2
+    exact h.accPark c hc1 ((hsp.map _).subset hc2)
+  · exact h.accConn
+  · intro c hc1
+    exact h.parkConn c ((hsp.map _).subset hc1)
+  · intro c hc1
+    apply h.callsUsed c
+    rcases hc1 with hc1 | hc1 | hc1
+    · exact Or.inl hc1
+    · exact Or.inr (Or.inl ((hsp.map _).subset hc1))
+    · exact Or.inr (Or.inr hc1)
+
+theorem step_inv (s : State) (o : Op) (r : State × List String) (h : Inv s) (hr : r ∈ step s o) : Inv r.1 := by
+  cases o with
+  | listen lid addr self peer =>
+    simp only [step] at hr
+    split at hr
+    · simp at hr; subst hr; exact h
+    · rename_i hc
+      split at hr
+      · simp at hr; subst hr; exact h
+      · rename_i hb
+        simp at hr; subst hr
+        apply listenOk_inv s lid addr self peer h
+        · simpa using hc
+        · intro b hb2
+          simp at hb
+          exact hb b hb2
+  | accept lid call =>
+    simp only [step] at hr
+    split at hr
+    · cases hr
+    · rename_i hu
+      have hf : call ∉ s.used := by simpa using hu
+      have hn := fresh_not_held s call h hf
+      have h' := useCall_inv s call h
+      have hu' : call ∈ (useCall s call).used := by simp [useCall]
+      split at hr
+      · simp at hr; subst hr; exact h'
+      · rename_i hlive
+        simp only [Bool.or_eq_true, Bool.not_eq_true', not_or] at hlive
+        have ha : lid ∈ (useCall s call).activeL := by
+          have := hlive.1
+          simpa using this
+        have hc : lid ∉ (useCall s call).closedL := by
+          have := hlive.2
+          simpa using this
+        split at hr
+        · rename_i hemp
+          simp at hr; subst hr
+          exact acceptPush_inv _ lid call h' hu' hn ha hc (by simpa using hemp)
+        · simp only [List.mem_map] at hr
+          obtain ⟨p, hp, rfl⟩ := hr
+          exact acceptPair_inv _ call p h' hu' hn (mem_lookingAt.1 hp).1
+  | dial did call addr self peer =>
+    simp only [step] at hr
+    split at hr
+    · cases hr
+    · rename_i hu
+      have hf : call ∉ s.used := by simpa using hu
+      have hn := fresh_not_held s call h hf
+      have h' := useCall_inv s call h
+      have hu' : call ∈ (useCall s call).used := by simp [useCall]
+      split at hr
+      · simp at hr; subst hr; exact h'
+      · rename_i hd
+        have hd' : did ∉ (useCall s call).closedD := by simpa using hd
+        split at hr
+        · simp at hr; subst hr; exact h'
+        · rename_i b hb
+          obtain ⟨hb1, hb2⟩ := bindAt_some hb
+          split at hr
+          · simp at hr; subst hr; exact h'
+          · rename_i hproto
+            have hproto' : self = b.peer ∧ peer = b.self := by simpa using hproto
+            split at hr
+            · rename_i ac hac
+              simp at hr; subst hr
+              exact dialPair_inv _ b.lid ac call h' hu' hn (lastAcc_some hac)
+            · rename_i hnone
+              simp at hr; subst hr
+              exact dialPark_inv _ (Park.mk call did addr self peer) b h' hu' hn hd' hb1 hb2 hproto'.1 hproto'.2
+                (lastAcc_none hnone)
+  | closeL lid =>
+    simp only [step] at hr
+    simp at hr; subst hr
+    exact closeL_inv s lid h
+  | closeD did =>
+    simp only [step] at hr
+    simp at hr; subst hr
+    exact closeD_inv s did h
+
+theorem reach_inv {s : State} (h : Reach s) : Inv s := by
+  induction h with
+  | init => exact init_inv
+  | step s o r _ hr ih => exact step_inv s o r ih hr
+
+theorem nodup_map_inj {α β : Type} (f : α → β) : ∀ (l : List α), (l.map f).Nodup → ∀ x ∈ l, ∀ y ∈ l, f x = f y → x = y
+ | [], _, x, hx, _, _, _ => by cases hx
+ | a :: l, h, x, hx, y, hy, he => by
+   simp only [List.map_cons, List.nodup_cons, List.mem_map, not_exists, not_and] at h
+   simp only [List.mem_cons] at hx hy
+   rcases hx with rfl | hx
+   · rcases hy with rfl | hy
+     · rfl
+     · exact absurd he.symm (h.1 y hy)
+   · rcases hy with rfl | hy
+     · exact absurd he (h.1 x hx)
+     · exact nodup_map_inj f l h.2 x hx y hy he
 
 end Inproc
 end Model
